@@ -446,12 +446,14 @@ func c04Eval(c *Ctx, kind string, raw []byte) {
 		out, txt := guard(func() {
 			ov := dom.NewOverlayDocument()
 			memo := map[string]dom.Node{}
+			var given []dom.Node
 			for _, l := range p.Layers {
 				if p.Dag {
-					ov.Add(l.Name, heapBuildDag(l.Doc, memo).(dom.Container))
+					given = append(given, heapBuildDag(l.Doc, memo))
 				} else {
-					ov.Add(l.Name, wireContainer(l.Doc))
+					given = append(given, wireContainer(l.Doc))
 				}
+				ov.Add(l.Name, given[len(given)-1].(dom.Container))
 			}
 			snap := func() []W {
 				var s []W
@@ -463,6 +465,13 @@ func c04Eval(c *Ctx, kind string, raw []byte) {
 			}
 			before = snap()
 			m := ov.Merged(c04Opts(p.Opt)...)
+			finite := dhAcyclic(m)
+			for _, d := range given {
+				finite = finite && dhAcyclic(d)
+			}
+			if !c.Direct("merged-view-and-layers-are-finite-trees", finite, "after Merged a container or list contains itself") {
+				panic("harness: cyclic document, not observed any further")
+			}
 			mw, mmap = nodeWire(m), plainWire(m.AsMap())
 			after = snap()
 			// the same fold computed with ContainerBuilder.Merge itself
